@@ -6,6 +6,9 @@ regenerated   : translate/t_c06_src.py -> gen/G_Validate.v: order of the three v
                 sites, the checks of _validate_call_signature, the branches of _deserialize_value, the HTTP class
                 tuples / statuses, _set_http_status; tie/T_Validate.v proves gen_cfg = std_cfg and restates the
                 theorems over the regenerated configuration
+shm-routed    : socket requests whose batch is parked in a shared-memory segment behind a 0-row pointer batch
+                (ShmPipeTransport): pointer with the declared schema in front of a perturbed resolved batch, and the
+                reverse; conformance is judged on the resolved batch (the one the arguments are decoded from)
 correspondence: generated services (unary + producer-stream methods, 0..5 parameters over 11 parameter kinds,
                 optional / defaulted) x perturbed requests, run against the real RpcServer over an in-memory pipe
                 (serve_one) and the real Falcon app (POST /m and /m/init), with an invocation log; the outcome
@@ -95,9 +98,46 @@ def _request_bytes(d: dict[str, Any]) -> bytes:
     return sink.getvalue()
 
 
+def _shm_request_bytes(d: dict[str, Any], shm: Any) -> tuple[bytes, int]:
+    """A request routed through the shared-memory side channel: the batch of ``d["cols"]`` is parked in ``shm`` as a
+    self-describing IPC stream, the inline batch is a 0-row pointer with schema ``d["inline"]``.  -> (bytes, offset)"""
+    import pyarrow as pa
+    from pyarrow import ipc
+
+    from vgi_rpc.metadata import REQUEST_VERSION, REQUEST_VERSION_KEY, RPC_METHOD_KEY, merge_metadata
+    from vgi_rpc.shm import make_shm_pointer_batch
+
+    schema = pa.schema([pa.field(n, t, nullable=nl) for n, t, nl, _ in d["cols"]])
+    arrays = [pa.array([v] * d["rows"], type=t) for _, t, _, v in d["cols"]]
+    if arrays:
+        inner = pa.RecordBatch.from_arrays(arrays, schema=schema)
+    else:
+        inner = pa.RecordBatch.from_struct_array(pa.array([{}] * d["rows"], type=pa.struct([])))
+    placed = shm.allocate_and_write(inner)
+    if placed is None:
+        raise ValueError("request batch does not fit the shared-memory segment")
+    offset, length = placed
+    ptr_batch, ptr_cm = make_shm_pointer_batch(pa.schema([pa.field(n, t, nullable=nl) for n, t, nl in d["inline"]]), offset, length)
+    md: dict[bytes, bytes] = {}
+    mk = d["method_key"]
+    if mk[0] == "name":
+        md[RPC_METHOD_KEY] = mk[1].encode()
+    elif mk[0] == "badutf8":
+        md[RPC_METHOD_KEY] = b"\xff\xfe"
+    if d["version"] == "ok":
+        md[REQUEST_VERSION_KEY] = REQUEST_VERSION
+    elif d["version"] == "wrong":
+        md[REQUEST_VERSION_KEY] = b"0"
+    sink = io.BytesIO()
+    with ipc.new_stream(sink, ptr_batch.schema) as w:
+        w.write_batch(ptr_batch, custom_metadata=merge_metadata(pa.KeyValueMetadata(md), ptr_cm))
+    return sink.getvalue(), offset
+
+
 def _show(d: dict[str, Any]) -> dict[str, Any]:
     return {
         "method_key": list(d["method_key"]), "version": d["version"], "rows": d["rows"], "url": d["url"], "endpoint": d["endpoint"],
+        "shm_pointer_schema": None if d.get("inline") is None else [{"name": n, "type": str(t), "nullable": nl} for n, t, nl in d["inline"]],
         "columns": [{"name": n, "type": str(t), "nullable": nl, "value": repr(v) if len(repr(v)) <= 60 else repr(v)[:40] + "...#" + hashlib.sha1(repr(v).encode()).hexdigest()[:10]} for n, t, nl, v in d["cols"]],
     }
 
@@ -220,7 +260,7 @@ def run(ctx: Any) -> None:
         "C06_socket_invoked_iff_conforming", "C06_http_invoked_iff_conforming", "C06_invoked_with_declared_arguments",
         "C06_socket_rejected_with_error_stream", "C06_http_nonconforming_400", "C06_http_rejected_before_method_runs",
         "C06_method_error_not_request_error_http", "C06_method_error_not_request_error_socket", "C06_400_only_before_invocation",
-        "C06_defaults_not_filled_by_server",
+        "C06_defaults_not_filled_by_server", "C06_shm_routed_judged_on_resolved_batch",
     ]
     ctx.prove(
         ["prop/P_C06.vo", "tie/T_Validate.vo", "refuted/R_C06.vo"],
@@ -232,6 +272,8 @@ def run(ctx: Any) -> None:
 
     from harness import c06_service as S
     from harness.rawrpc import error_of, read_streams, serve_bytes, tick_stream_bytes
+    from vgi_rpc.rpc import PipeTransport, ShmPipeTransport
+    from vgi_rpc.shm import ShmSegment, _has_dictionary_columns
     from translate.t_c06_src import CLASS_CODES
     from vgi_rpc.http import make_wsgi_app
     from vgi_rpc.rpc import _deserialize_value
@@ -313,8 +355,14 @@ def run(ctx: Any) -> None:
         if key in seen:
             return
         seen.add(key)
+        shm_routed = d.get("inline") is not None
+        shm_offset = None
         try:
-            data = _request_bytes(d)
+            if shm_routed:
+                SHM.reset()
+                data, shm_offset = _shm_request_bytes(d, SHM)
+            else:
+                data = _request_bytes(d)
         except (pa.ArrowInvalid, pa.ArrowTypeError, pa.ArrowNotImplementedError, ValueError, TypeError, OverflowError):
             ctx.count("unbuildable_requests")
             return
@@ -371,7 +419,7 @@ def run(ctx: Any) -> None:
             return [9], ""
 
         S.BEHAVIOUR[0] = behs[beh]
-        for path in ("socket", "http"):
+        for path in (("socket",) if shm_routed else ("socket", "http")):
             del S.LOG[:]
             escaped = None
             status = 0
@@ -379,7 +427,17 @@ def run(ctx: Any) -> None:
             if path == "socket":
                 if d["url"] != name or d["endpoint"] != ("init" if decl["stream"] else "unary"):
                     continue  # URL perturbations do not exist on the socket path
-                out, exc = serve_bytes(srv, data + (tick_stream_bytes(1) if decl["stream"] else b""))
+                wire = data + (tick_stream_bytes(1) if decl["stream"] else b"")
+                if shm_routed:
+                    wr = io.BytesIO()
+                    exc = None
+                    try:
+                        srv.serve_one(ShmPipeTransport(PipeTransport(io.BytesIO(wire), wr), SHM))
+                    except BaseException as e:  # noqa: BLE001 - an escaping exception is an observation
+                        exc = e
+                    out = wr.getvalue()
+                else:
+                    out, exc = serve_bytes(srv, wire)
                 if exc is not None:
                     escaped = type(exc).__name__
                 try:
@@ -408,9 +466,10 @@ def run(ctx: Any) -> None:
             params, declared, decodable, enum_only_failure = j["params"], j["declared"], j["decodable"], j["enum_only"]
             handshake = path == "socket" and target == "__transport_options__" and err is None and not invoked and escaped is None
             ctx.count("impl_runs")
-            ctx.tally("path", path)
+            pathname = "socket-shm" if shm_routed else path
+            ctx.tally("path", pathname)
             ctx.case([sigs["id"], name, _show(d), beh, path], nontrivial=bool(labels) or beh != "ok")
-            rp = {**repl, "path": path, "status": status, "marker": marker, "error": list(err) if err else None, "invoked": [list(map(repr, x)) for x in invoked], "escaped": escaped}
+            rp = {**repl, "path": pathname, "status": status, "marker": marker, "error": list(err) if err else None, "invoked": [list(map(repr, x)) for x in invoked], "escaped": escaped}
             # ---- property oracle on the implementation -------------------------------------------------------
             url_known = path == "socket" or j["known"]
             conf = j["conf"] and (path == "socket" or d["endpoint"] == ("init" if j["stream"] else "unary"))
@@ -419,7 +478,9 @@ def run(ctx: Any) -> None:
             if len(invoked) > 1:
                 ctx.violation("method-invoked-twice", f"{path}: one request ran the method {len(invoked)} times", rp)
             if invoked and not conf:
-                ctx.violation("method-invoked-on-nonconforming-request", f"{path}: the method ran although the request does not conform ({labels_s})", rp)
+                ctx.violation(
+                    "method-invoked-on-nonconforming-shm-routed-request" if shm_routed else "method-invoked-on-nonconforming-request",
+                    f"{pathname}: the method ran although the {'batch its arguments were decoded from (resolved from shared memory)' if shm_routed else 'request'} does not conform ({labels_s})", rp)
             if invoked and invoked[0][0] != target:
                 ctx.violation("wrong-method-invoked", f"{path}: method {invoked[0][0]} ran for a request addressed to {target}", rp)
             if invoked and conf:
@@ -489,17 +550,37 @@ def run(ctx: Any) -> None:
                     cterm = (f"(CVal {{| v_bytes := {cbool(isinstance(pv, bytes))}; v_str := {cbool(isinstance(pv, str))}; v_list := {cbool(isinstance(pv, list))}; "
                              f"v_enum := {v_enum}; v_dc := {v_dc}; v_dict := {v_dict}; v_fset := {v_fset} |}})")
                 cells.append(f"({fterm}, {cterm})")
+            inline_term = "None" if not shm_routed else copt(clist(f"{{| f_name := {cstr(n)}; f_type := {cN(tag(t))}; f_null := {cbool(nl)} |}}" for n, t, nl in d["inline"]))
             mk = d["method_key"]
             mterm = "MKAbsent" if mk[0] == "absent" else ("MKBadUtf8" if mk[0] == "badutf8" else f"(MKName {cstr(mk[1])})")
             vterm = {"ok": "VOk", "absent": "VAbsent", "wrong": "VWrong"}[d["version"]]
-            q = f"{{| q_method := {mterm}; q_version := {vterm}; q_cols := {clist(cells)}; q_rows := {cN(d['rows'])} |}}"
+            q = f"{{| q_method := {mterm}; q_version := {vterm}; q_cols := {clist(cells)}; q_rows := {cN(d['rows'])}; q_inline := {inline_term} |}}"
             bterm = "BOk" if beh == "ok" else f"(BRaise {exn_term(behs[beh]())})"
             model_cases.append((f"({cN(tr)}, {cstr(d['url'])}, {table_term}, {bterm}, {q})", out_term))
             case_info.append(rp)
         S.BEHAVIOUR[0] = None
 
     kind_term = {"KPlain": "KPlain", "KEnum": "KEnum", "KDataclass": "KDataclass", "KDict": "KDict", "KFrozenset": "KFrozenset"}
-    n_single = n_pair = 0
+    n_single = n_pair = n_shm = 0
+    import atexit
+
+    SHM = ShmSegment.create(4 * 1024 * 1024)
+    shm_state = {"open": True}
+
+    def shm_cleanup() -> None:
+        if shm_state["open"]:
+            shm_state["open"] = False
+            for f in (SHM.unlink, SHM.close):
+                try:
+                    f()
+                except Exception:  # noqa: BLE001 - best-effort removal of the scratch segment
+                    pass
+
+    atexit.register(shm_cleanup)
+
+    def no_dict(fields: list[Any]) -> bool:
+        return not any(pa.types.is_dictionary(t) for _, t, *_ in fields)
+
     for si, methods in enumerate(services):
         srv = S.build_service(methods)
         app = make_wsgi_app(srv, prefix="", token_key=b"k" * 32, enable_landing_page=False, enable_not_found_page=False, enable_describe_page=False)
@@ -545,6 +626,28 @@ def run(ctx: Any) -> None:
                 check_case(srv, client, table_term, decl, d1, "ok", [label], sigs)
                 if rng.random() < (0.25 if thorough else 0.12):
                     check_case(srv, client, table_term, decl, d1, rng.choice([b for b in behs if b != "ok"]), [label], sigs)
+            # requests routed through the shared-memory side channel (socket path only): the batch the arguments are
+            # decoded from lives in shm, the inline batch is a 0-row pointer with its own schema.  (A) pointer keeps the
+            # declared schema while the resolved batch is perturbed, (B) pointer perturbed in front of a valid resolved
+            # batch, (C) both perturbed alike.  Dictionary-encoded columns use a different shm framing: left out.
+            decl_fields = [(f.name, f.type, f.nullable) for f in declared]
+            if not _has_dictionary_columns(declared):
+                for beh in ("ok", "TypeError", "C06Boom"):
+                    n_shm += 1
+                    check_case(srv, client, table_term, decl, {**_copy(valid), "inline": decl_fields}, beh, ["shm-routed"], sigs)
+                for label, fn in perts:
+                    d1 = fn(valid)
+                    if d1 is None or d1["url"] != m or d1["endpoint"] != valid["endpoint"] or not no_dict(d1["cols"]):
+                        continue
+                    d1_fields = [(c[0], c[1], c[2]) for c in d1["cols"]]
+                    variants = [("shm:pointer-declared/resolved-perturbed", {**d1, "inline": decl_fields})]
+                    if d1_fields != decl_fields:
+                        variants.append(("shm:pointer-perturbed/resolved-valid", {**_copy(valid), "inline": d1_fields}))
+                        if rng.random() < (0.5 if thorough else 0.15):
+                            variants.append(("shm:pointer-and-resolved-perturbed", {**d1, "inline": d1_fields}))
+                    for vl, dv in variants:
+                        n_shm += 1
+                        check_case(srv, client, table_term, decl, dv, "ok", [vl, label], sigs)
             # pairs
             if thorough and si == 0:
                 pairs = [(a, b) for a in range(len(perts)) for b in range(len(perts)) if a != b]
@@ -567,6 +670,8 @@ def run(ctx: Any) -> None:
                     continue
                 n_pair += 1
                 check_case(srv, client, table_term, decl, d2, "ok", [perts[a][0], perts[b][0]], sigs)
+    shm_cleanup()
+    ctx.count("shm_routed_requests", n_shm)
     ctx.count("single_perturbations", n_single)
     ctx.count("pair_perturbations", n_pair)
     ctx.sample({"service": 0, "method": "m0(a: int, b: str, c: float | None = 0.5, e: Color = GREEN)", "perturbation": "retype[0]->int32", "expected": "refused: TypeError, HTTP 400"})
@@ -588,7 +693,7 @@ def run(ctx: Any) -> None:
         "pyarrow DataType equality is a primitive: a type is a tag, two request/declared types get one tag iff pyarrow's == holds",
         "the outcome of each value conversion (Enum[name], dataclass blob parsing, dict(), frozenset()) is measured on the real value and enters the model as an attribute of the cell",
         "socket transports share serve_one: the in-memory pipe transport stands for pipe / unix / tcp / subprocess",
-        "services declare no protocol_version (the C09 gate is not on the path); no external-location / shared-memory request batches; well-formed IPC framing (C05 covers the rest)",
+        "services declare no protocol_version (the C09 gate is not on the path); no external-location request batches; shared-memory routed requests only over a static ShmPipeTransport segment and without dictionary-encoded columns; well-formed IPC framing (C05 covers the rest)",
         "HTTP: Content-Type is the Arrow stream type, no authentication, no request caps",
     ]
     del sys
